@@ -38,12 +38,17 @@ def _io_sets(vs, io):
 def h_dt(f, N, sem, io, mode):
     f = T(f)
     vs = sorted(variables(f) | set(io))
+    uf = refsem.has(f, {'sqrt', 'exp', 'ln', 'pow', 'log'})
 
     def body(env):
         A = env.A
         s = dt.make_spec('combined', 'out = ' + text(f), vs, io={v: t for v, t in io.items() if t in ('input', 'output')},
                          semantics=_sem(sem))
         w = dt.trace(env, vs, N)
+        if uf:
+            for v in vs:
+                for x in w[v]:
+                    env.assume(A.And(A.le(2, x), A.le(x, 8)))
         if mode == 'offline':
             got = [p[1] for p in dt.offline(s, w, N)]
         else:
@@ -52,6 +57,7 @@ def h_dt(f, N, sem, io, mode):
         inputs, outputs = _io_sets(vs, io)
         want = rho(A, f, w, N, refsem.ia_pred(A, sem, inputs, outputs))
         return dt.eq_list(A, 'ia', got, want)
+    body.uf = uf
     return body
 
 
@@ -91,6 +97,21 @@ def preds():
     return [(k, l, r) for k in refsem.PRED for (l, r) in shapes]
 
 
+def arith_preds():
+    out = []
+    # in/out variable sets must propagate through EVERY arithmetic node kind, from either operand
+    for k2 in ('add', 'sub', 'mul', 'div'):
+        out.append(('geq', (k2, X, Y), C1))
+        out.append(('leq', C1, (k2, Y, X)))
+        out.append(('geq', (k2, C1, Y), X))
+    for k1 in ('abs', 'neg', 'sqrt', 'exp'):
+        out.append(('leq', (k1, Y), X))
+        out.append(('geq', (k1, ('sub' if k1 in ('abs', 'neg') else 'add', X, Y)), C1))
+    out.append(('geq', ('pow', X, Y), C1))
+    out.append(('geq', ('pow', Y, X), C1))
+    return out
+
+
 def contexts(p, dense):
     other = ('geq', Z, ('const', 0.0))
     ctx = [('bare', p), ('not', ('not', p)), ('and', ('and', p, other))]
@@ -120,8 +141,8 @@ def obligations(tier, rng):
         mode = mon.split('-')[1]
         if has_always(f) and mode == 'online':
             return                      # future operator: needs pastify(), which is C03's business
-        if dense and not variables(p):
-            return                      # constant-only predicate: no input domain in dense time
+        if dense and (not variables(p) or refsem.has(p, {'div', 'sqrt', 'exp', 'pow'})):
+            return                      # constant-only predicate: no input domain in dense time; div/sqrt/exp/pow: discrete only
         if dense:
             vs = sorted(variables(f) | set(io))
             ns = [2 if len(vs) > 2 or quick else 3 for _ in vs]
@@ -154,6 +175,15 @@ def obligations(tier, rng):
                                       (cname in ('not', 'always01') and p[0] not in ('geq', 'eq'))):
                             continue
                         add(p, cname, f, sem, io, mon)
+    # (2b) in/out variable propagation through every arithmetic node kind: all io assignments of x,y
+    for p in arith_preds():
+        for sem in SEMS[1:]:
+            for xa, ya in itertools.product(('input', 'output'), repeat=2):
+                io = {'x': xa, 'y': ya, 'z': 'input'}
+                for mon in (mons[:3] if quick else mons):
+                    if quick and mon == 'ct-offline' and sem not in ('output_robustness', 'input_vacuity'):
+                        continue
+                    add(p, 'bare', p, sem, io, mon)
     # (3) seeded sample of the remaining product
     for i in range(100 if quick else 3000):
         p = rng.choice(allp)
@@ -163,4 +193,7 @@ def obligations(tier, rng):
         cname, f = rng.choice(contexts(p, mon.startswith('ct')))
         add(p, cname, f, sem, io, mon)
     seen = set()
-    return [o for o in out if not (o['oid'] in seen or seen.add(o['oid']))]
+    res_ = [o for o in out if not (o['oid'] in seen or seen.add(o['oid']))]
+    from .. import core as _core
+    res_ = res_ + _core.make_twins(res_, [('dt-offline/output_robustness/iio/and/', 'minmax'), ('dt-online/input_robustness/ioo/once01/', 'window')]) + _core.make_forkmode(res_, [])
+    return res_
